@@ -152,6 +152,9 @@ def fstring_tokens(node: ast.AST, as_regex: bool = False, raw_glob: bool = False
         if as_regex:
             return regex_tokens(node.value)
         return _merge([("lit", node.value)]) if not raw_glob else [("lit", node.value)]
+    if isinstance(node, ast.BinOp) and isinstance(node.op, ast.Add) and not as_regex:
+        parts = fstring_tokens(node.left, raw_glob=True) + fstring_tokens(node.right, raw_glob=True)
+        return parts if raw_glob else _merge(parts)
     if not isinstance(node, ast.JoinedStr):
         raise PatternError(f"not a string template: {norm(node)}")
     if as_regex:
